@@ -45,6 +45,57 @@ def bodies(rng):
   return out
 
 
+def clock_cases(rng, fails):
+  """end to end: the trace() text of real charts under different clocks (fine, constant, whole seconds with microsecond == 0)
+  must strip to the same lines - the records without their timestamps - whatever the clock said"""
+  import miros.hsm as mh
+  from miros.event import Event, signals, return_status
+  from miros.hsm import stripped
+  from .chartgen import FakeClock
+  n = 0
+  old = mh.stdlib_datetime
+  try:
+    for cname in ["c", "75c8c", "my chart", "7"]:
+      per_clock = {}
+      for mode in ("fine", "const", "whole", "coarse"):
+        mh.stdlib_datetime = FakeClock(mode)
+
+        def mk(nm, other):
+          def f(chart, e):
+            if e.signal in (signals.ENTRY_SIGNAL, signals.EXIT_SIGNAL, signals.INIT_SIGNAL):
+              return return_status.HANDLED
+            if e.signal_name == "A":
+              return chart.trans(fns[other])
+            chart.temp.fun = chart.top
+            return return_status.SUPER
+          f.__name__ = nm
+          return mh.spy_on(f)
+        fns = {}
+        fns["s1"], fns["s2"] = mk("s1", "s2"), mk("s2", "s1")
+        h = mh.HsmWithQueues()
+        h.name = cname
+        h.start_at(fns["s1"])
+        for _ in range(rng.randint(1, 4)):
+          h.post_fifo(Event(signal="A"))
+          h.next_rtc()
+        exp = ["[%s] e->%s() %s->%s" % (cname, t.signal if t.signal is not None else "start_at", t.start_state, t.end_state) for t in h.full.trace]
+        text = h.trace()
+        with stripped(text) as got:
+          got = as_list(got)
+        n += 1
+        if got != exp[-len(got):] or len(got) != len(exp):
+          fails.append({"kind": "clock", "clock": mode, "text": text, "got": got, "expected": exp})
+        one = [l for l in text.split("\n") if l.strip()][-1]
+        with stripped(one) as g1:
+          g1 = as_list(g1)
+        n += 1
+        if g1 != exp[-1:]:
+          fails.append({"kind": "clock-single-line", "clock": mode, "text": one, "got": g1, "expected": exp[-1:]})
+  finally:
+    mh.stdlib_datetime = old
+  return n
+
+
 def render(text, b1, b2, lead_nl):
   lines = []
   for t in text:
@@ -99,4 +150,5 @@ def run(maxlen, seed, pairs_cap):
           fails.append({"kind": "pair", "a": a[0], "b": b[0], "norm_a": a[1], "norm_b": b[1]})
         if npairs >= pairs_cap:
           break
-  return {"universe": len(uni), "rendered": len(recs), "pairs": npairs, "fails": fails, "samples": recs[:3], "tlc": r}
+  nclock = clock_cases(rng, fails)
+  return {"universe": len(uni), "rendered": len(recs) + nclock, "pairs": npairs, "fails": fails, "samples": recs[:3], "tlc": r, "clock_cases": nclock}
